@@ -493,6 +493,7 @@ func genTemplates(w *World) ([]*Obligation, []string) {
 	trs := extractTemplates(w, e)
 	checkTemplates(w, e, trs)
 	checkTemplateValues(w, e, trs)
+	checkBuiltinLoops(w, e, trs)
 	return e.obls, e.Notes()
 }
 
